@@ -176,3 +176,44 @@ theorem old_saved_against_outdated_parent :
   decide
 
 end NV.C17
+
+namespace NV.C17
+
+/-! ### 8. open finding: an include file shadowed by a new file earlier in the search path -/
+
+/-- `inc_open` (lib/lpc/lex.c): an include directive takes the first candidate that exists — the file next to the
+    including file, then `<include dir>/<name>` for every configured include directory in order -/
+def resolveInclude (w : World) (cands : List String) : Option String :=
+  cands.find? (fun c => (w.mtime c).isSome)
+
+/-- the full statement: when a binary is used, every include directive of the program still resolves to the file the
+    binary recorded for it -/
+def IncludesResolveAsRecorded_Full : Prop :=
+  ∀ (w : World) (name : String) (b : BinFile) (cands : List String) (r : String),
+    loadBinary w name = .use → w.bins.lookup (binPath w name) = some b → r ∈ b.includes → r ∈ cands →
+      resolveInclude w cands = some r
+
+/-- a.c includes "s.h", found as include/s.h when a.c was compiled and saved (200); later d/s.h appears (modification
+    time 80, older than everything): the binary is used, a compile would now read d/s.h -/
+def shadowBin : BinFile :=
+  { magic := magicId, driverId := driverId, configId := 0, includes := ["include/s.h"], name := "d/a.c", inherits := [] }
+
+def shadowWorld : World :=
+  { files := [("B/a", 200), ("d/a.c", 100), ("include/s.h", 90), ("d/s.h", 80)],
+    bins := [("B/a", shadowBin)],
+    binOf := fun _ => "B/a" }
+
+theorem shadow_facts :
+    loadBinary shadowWorld "d/a.c" = .use ∧
+      shadowWorld.bins.lookup (binPath shadowWorld "d/a.c") = some shadowBin ∧
+      resolveInclude shadowWorld ["d/s.h", "include/s.h"] = some "d/s.h" := by
+  decide
+
+theorem include_shadowing_not_seen : ¬ IncludesResolveAsRecorded_Full := by
+  intro h
+  obtain ⟨h1, h2, h3⟩ := shadow_facts
+  have := h shadowWorld "d/a.c" shadowBin ["d/s.h", "include/s.h"] "include/s.h" h1 h2 (by simp [shadowBin]) (by simp)
+  rw [h3] at this
+  simp at this
+
+end NV.C17
